@@ -321,6 +321,8 @@ def main(argv=None):
         print(f"HARNESS-ERROR property={prop} cannot import {modname}")
         return 2
     known = load_known(prop)
+    for name in getattr(mod, "PRELOAD", ()):  # heavy imports before the pool forks
+        importlib.import_module(name)
 
     if len(argv) >= 3 and argv[1] == "--replay":
         path = argv[2]
